@@ -18,6 +18,11 @@ from vp import prelude
 UNKNOWN = None
 NoneType = type(None)
 
+# Documented leniency L2 (DESIGN §3 C04): a fixed-length tuple type accepts a variadic tuple of compatible
+# element type. When this flag is on, Tuple(t1..tn) additionally admits tuples of any length whose elements
+# belong to every ti, so that exactly the documented leniency (and nothing else) is excused.
+LENIENT_FIXED_TUPLES = False
+
 
 @dataclass(frozen=True)
 class Ty:
@@ -264,13 +269,31 @@ def member(o, t: Ty) -> Optional[bool]:
             return None
         return and3(member(e, t.args[0]) for e in _elements(o))
     if k == "Tuple":
-        return isinstance(o, tuple) and len(o) == len(t.args) and and3(member(e, a) for e, a in zip(o, t.args))
+        if not isinstance(o, tuple):
+            return False
+        strict = len(o) == len(t.args) and and3(member(e, a) for e, a in zip(o, t.args))
+        if LENIENT_FIXED_TUPLES and strict is not True:
+            return or3((strict, and3(member(e, a) for e in o for a in t.args)))
+        return strict
     if k == "VarTuple":
         return isinstance(o, tuple) and and3(member(e, t.args[0]) for e in o)
     if k == "MixTuple":
         prefix, star, suffix = t.args
-        if not isinstance(o, tuple) or len(o) < len(prefix) + len(suffix):
+        if not isinstance(o, tuple) or (len(o) < len(prefix) + len(suffix) and not LENIENT_FIXED_TUPLES):
             return False
+        if LENIENT_FIXED_TUPLES:
+            comps = [*prefix, star, *suffix]
+            strict = None
+            if len(o) >= len(prefix) + len(suffix):
+                LEN = len(o)
+                strict = and3(
+                    [member(e, a) for e, a in zip(o, prefix)]
+                    + [member(e, star) for e in o[len(prefix): LEN - len(suffix)]]
+                    + [member(e, a) for e, a in zip(o[LEN - len(suffix):] if suffix else (), suffix)]
+                )
+                if strict is True:
+                    return True
+            return or3((strict if strict is not None else False, and3(member(e, a) for e in o for a in comps)))
         mid = o[len(prefix): len(o) - len(suffix)]
         tail = o[len(o) - len(suffix):] if suffix else ()
         return and3(
